@@ -679,6 +679,9 @@ class Ref:
             self.groups.pop(gid, None)
         return "ok"
 
+    def t_restart(self, op, env):
+        return "ok"  # the caller replaces the reference by its projection
+
     # contexts: the specification of `with model:` is "pop restores the copy"
     def t_enter(self, op, env):
         self.stack.append(self.clone())
